@@ -257,7 +257,7 @@ var initStd = map[string]bool{
 	"encoding/hex": true, "encoding/base64": true, "errors": true, "cmp": true, "maps": true, "io": true,
 	"gopkg.in/src-d/go-errors.v1": true, "container/list": true, "hash/crc32": false,
 	"internal/strconv": true, "internal/stringslite": true, "internal/byteorder": true, "internal/itoa": true,
-	"github.com/cockroachdb/apd/v3": true, "context": true, "net/netip": true, "go.opentelemetry.io/otel/trace": true, "bufio": true,
+	"github.com/cockroachdb/apd/v3": true, "context": true, "net/netip": true, "go.opentelemetry.io/otel/trace": true, "bufio": true, "regexp": true, "regexp/syntax": true,
 }
 
 func (w *World) wantInit(p *ssa.Package) bool {
@@ -275,7 +275,7 @@ var denyPrefixes = []string{
 	"os", "net", "syscall", "runtime", "reflect", "time", "fmt", "log", "sync", "os/",
 	"internal/reflectlite", "internal/poll", "internal/syscall", "internal/runtime", "internal/testlog", "internal/bisect", "internal/oserror",
 	"github.com/sirupsen/logrus", "go.opentelemetry.io/", "io/ioutil", "io/fs", "net/", "crypto/", "testing",
-	"unsafe", "path/filepath", "math/rand", "math/big", "regexp", "encoding/json", "database/sql",
+	"unsafe", "path/filepath", "math/rand", "math/big", "encoding/json", "database/sql",
 	"google.golang.org/", "runtime/",
 }
 
@@ -300,6 +300,9 @@ var allowFuncs = map[string]bool{"(*fmt.wrapError).Error": true, "(*fmt.wrapErro
 	// pure address parsing/formatting of package net (no I/O): a thin layer over net/netip
 	"net.ParseIP": true, "net.parseIP": true, "net.IPv4": true, "(net.IP).To4": true, "(net.IP).To16": true, "(net.IP).String": true,
 	"(net.IP).Equal": true, "net.ubtoa": true, "net.hexString": true, "net.isZeros": true, "net.allFF": true,
+	// time.Unix / (Time).Unix: pure arithmetic on the wall/ext fields (the location pointer is not followed)
+	"time.Unix": true, "time.unixTime": true, "(time.Time).Unix": true, "(*time.Time).unixSec": true, "(*time.Time).sec": true,
+	"(time.Time).UnixNano": true, "(*time.Time).nsec": true, "(time.Time).IsZero": true, "(time.Time).Equal": true,
 }
 
 func (w *World) allowedPath(path string) bool {
